@@ -19,7 +19,8 @@ class JobRec:
     __slots__ = ("id", "task", "task_hash", "parent", "expr_hash", "eval_hash", "args_hash",
                  "context_hash", "handoffs", "consumed", "released", "outcome", "finalized",
                  "was_cached", "call_hash", "created_seq", "settled_seq", "limits", "options",
-                 "exec_count", "prov", "cache_scope", "children", "status", "execution_id")
+                 "exec_count", "prov", "cache_scope", "children", "status", "execution_id",
+                 "parent_key")
 
     def __init__(self, id: str):
         self.id = id
@@ -47,6 +48,7 @@ class JobRec:
         self.children = []
         self.status = None
         self.execution_id = None
+        self.parent_key = None
 
 
 class Recorder:
@@ -64,6 +66,7 @@ class Recorder:
         self.root_settled_seq: Optional[int] = None
         self.handoff_after_root: list[str] = []
         self.callbacks: dict[str, list[Callable]] = {}
+        self.env_counter = 0
 
     def rec(self, job) -> JobRec:
         r = self.jobs.get(job.id)
@@ -103,6 +106,13 @@ def recording(w: World, rec: Recorder):
             r.task = task.fullname
             r.task_hash = task.hash
             r.parent = parent_job.id if parent_job is not None else None
+            r.parent_key = r.parent
+            if parent_job is not None and type(parent_job).__name__ == "JobEnv":
+                eid = parent_job.__dict__.get("_verif_env")
+                if eid is None:
+                    rec.env_counter += 1
+                    eid = parent_job.__dict__["_verif_env"] = rec.env_counter
+                r.parent_key = f"{r.parent}/env{eid}"
             r.execution_id = execution.id if execution is not None else None
             try:
                 r.expr_hash = expr.get_hash()
